@@ -75,7 +75,8 @@ PROPS["C03"] = {
               H("ZZ_C03_Reset", reach=["read-done"]),
               H("ZZ_C03_Loading", reach=["read-done"]),
               H("ZZ_C14_HybridLoadingExpiry", reach=["read"], bounds="hybrid loading cache: a value promoted from the secondary tier keeps its deadline"),
-              H("ZZ_C15_ReloadAfterSecondaryExpiry", reach=["reloaded"], bounds="hybrid loading Get: an expired copy in the secondary tier is not served")],
+              H("ZZ_C15_ReloadAfterSecondaryExpiry", reach=["reloaded"], bounds="hybrid loading Get: an expired copy in the secondary tier is not served"),
+              H("ZZ_C14_Expired", reach=["read"], bounds="hybrid Get of a key that lives only in the secondary tier: read time and the instant of the last cached-clock refresh symbolic")],
     "thorough": [H("ZZ_C14_HybridLoadingExpiry", reach=["read"]), H("ZZ_C03_Get", reach=["read-done", "hit"]), H("ZZ_C03_Range", reach=["range-done"]), H("ZZ_C03_Reset", reach=["read-done"]), H("ZZ_C03_Loading", reach=["read-done"]),
                  H("ZZ_C03_Get", reach=["read-done", "hit"], solver="cvc5", bounds="cross-check with cvc5"), H("ZZ_C03_Reset", reach=["read-done"], solver="cvc5", bounds="cross-check with cvc5"),
                  H("ZZ_C03_Loading", reach=["read-done"], solver="cvc5", bounds="cross-check with cvc5")],
@@ -315,9 +316,10 @@ PROPS["C13"] = {
     "outside_bound": ["more than 3 callers", "nested loads"],
     "quick": [H("ZZ_C13_Group", params={"CALLERS": 2, "PRE": 1}, reach=["all-callers-finished"]),
               H("ZZ_C13_Group", params={"CALLERS": 2, "PRE": 1, "OTHER": 1}, reach=["all-callers-finished"], bounds="plus a caller of another key sharing the record pool, happens-before monitor on"),
+              H("ZZ_C13_NotCached", params={"PRE": 1}, reach=["all-callers-finished"], bounds="2 callers x 2 consecutive calls of one key, loader ok/failing, preemptions 1"),
               H("ZZ_C13_Loading", params={"CALLERS": 2, "PRE": 1}, reach=["all-callers-finished"]),
               H("ZZ_C13_LoadingWithWriter", params={"PRE": 1}, reach=["both-finished"], bounds="one loading Get and one Set/Delete of the same key, loader ok/failing, preemptions 1")],
-    "thorough": [H("ZZ_C13_Group", params={"CALLERS": 3, "PRE": 1, "POOLMODE": 2}, reach=["all-callers-finished"]), H("ZZ_C13_Group", params={"CALLERS": 2, "PRE": 1, "OTHER": 1, "POOLMODE": 2}, reach=["all-callers-finished"]), H("ZZ_C13_Group", params={"CALLERS": 2, "PRE": 2}, reach=["all-callers-finished"]),
+    "thorough": [H("ZZ_C13_Group", params={"CALLERS": 3, "PRE": 1, "POOLMODE": 2}, reach=["all-callers-finished"]), H("ZZ_C13_NotCached", params={"PRE": 2}, reach=["all-callers-finished"]), H("ZZ_C13_NotCached", params={"PRE": 1, "CALLERS": 3}, reach=["all-callers-finished"]), H("ZZ_C13_Group", params={"CALLERS": 2, "PRE": 1, "OTHER": 1, "POOLMODE": 2}, reach=["all-callers-finished"]), H("ZZ_C13_Group", params={"CALLERS": 2, "PRE": 2}, reach=["all-callers-finished"]),
                  H("ZZ_C13_Loading", params={"CALLERS": 3, "PRE": 1}, reach=["all-callers-finished"]),
                  H("ZZ_C13_LoadingWithWriter", params={"PRE": 2}, reach=["both-finished"])],
 }
@@ -351,7 +353,8 @@ PROPS["C11"] = {
               H("ZZ_C11_RoundTrip", params={"N": 6, "CAP2": 4}, reach=["loaded"], bounds="6 entries, smaller target keeps part of a region (unit costs)"),
               H("ZZ_C11_RoundTrip", params={"COSTS": 1, "CAP2": 4}, reach=["loaded"], bounds="smaller target, symbolic costs"),
               H("ZZ_C11_RoundTrip", params={"ADAPT": 1, "CAP": 16, "N": 16}, reach=["loaded", "window-adapted"], bounds="source cache whose window the hill climber has resized (two sample periods through the real policy), same size"),
-              H("ZZ_C11_RoundTrip", params={"HITALL": 1, "N": 10}, reach=["loaded", "protected-above-its-size"], bounds="source cache saved with the protected region above its size")],
+              H("ZZ_C11_RoundTrip", params={"HITALL": 1, "N": 10}, reach=["loaded", "protected-above-its-size"], bounds="source cache saved with the protected region above its size"),
+              H("ZZ_C11_RoundTrip", params={"HOT": 50, "N": 200, "CAP": 300}, reach=["loaded", "hot-survivors"], bounds="50 saturated survivors of a 200-entry cache: the saved frequencies exceed one sample period of the new sketch")],
     "thorough": [H("ZZ_C11_RoundTrip", reach=["loaded"]), H("ZZ_C11_RoundTrip", params={"COSTS": 1}, reach=["loaded"]),
                  H("ZZ_C11_RoundTrip", params={"SPLIT": 1}, reach=["loaded"], bounds="block splits at arbitrary points"),
                  H("ZZ_C11_RoundTrip", params={"CAP2": 2}, reach=["loaded"]), H("ZZ_C11_RoundTrip", params={"COSTS": 1, "CAP2": 4}, reach=["loaded"]),
